@@ -76,6 +76,23 @@ Theorem C29_explicit_seq_accepted : forall f cf ops k v ttl eol s c,
 Proof. exact explicit_seq_accepted. Qed.
 Print Assumptions C29_explicit_seq_accepted.
 
+(** Two Publish calls of one key that overlap in time are serialised by the publisher's
+    mutex (the harness checks that on the real code by parking the first call inside its
+    datastore Put); one after the other, with different values, the second gets the
+    first's sequence plus one. *)
+Theorem C29_consecutive_publishes : forall f cf ops k vA tA eA vB tB eB,
+  f_seq_wrap f = false ->
+  let st := fst (run f cf st0 ops) in
+  let st1 := fst (publish f cf st k vA tA eA None) in
+  let st2 := fst (publish f cf st1 k vB tB eB None) in
+  snd (publish f cf st k vA tA eA None) = PNone ->
+  snd (publish f cf st1 k vB tB eB None) = PNone ->
+  vA <> vB ->
+  exists rA rB, alookup k (s_rt st1) = Some rA /\ r_val rA = vA /\
+                alookup k (s_rt st2) = Some rB /\ r_val rB = vB /\ r_seq rB = r_seq rA + 1.
+Proof. exact consecutive_publishes. Qed.
+Print Assumptions C29_consecutive_publishes.
+
 (** ---- second sentence: read your publish, with or without the cache ---- *)
 
 Theorem C29_read_your_publish : forall cf ops k v ttl eol so en segs slash d,
